@@ -2,6 +2,7 @@ package props
 
 import (
 	"fmt"
+	"strings"
 	"testing"
 
 	"github.com/jotaen/klog/klog"
@@ -126,8 +127,15 @@ func checkC17(c caseC17) (Outcome, error) {
 		if res.Err != nil {
 			return out, fmt.Errorf("total --now at %s failed: %s\nfile: %s", envString(env), res.Err.Error(), quoteShort(text))
 		}
-		var got int
-		if _, err := fmt.Sscanf(res.Out, "Total: %d\n", &got); err != nil {
+		// the `Total: N` line, wherever blank framing lines put it
+		got, found := 0, false
+		for _, line := range strings.Split(res.Out, "\n") {
+			if _, err := fmt.Sscanf(line, "Total: %d", &got); err == nil {
+				found = true
+				break
+			}
+		}
+		if !found {
 			return out, fmt.Errorf("cannot read the output of total --now: %s", quoteShort(res.Out))
 		}
 		if got != doc.Total()+extra {
